@@ -418,3 +418,131 @@ Section closed_form_sem.
     - apply elem_of_list_bind. exists (BDff q d). split; [|done]. simpl. by apply elem_of_list_singleton.
   Qed.
 End closed_form_sem.
+
+Section closed_form_outputs.
+  Context (ls : list bline) (Hwf : wfb ls = true).
+  Let outs : gset string := list_to_set (decl_outputs ls).
+
+  (* exactly the declared outputs *)
+  Theorem closed_outputs : outputs (bench_graph ls) = list_to_set (decl_outputs ls).
+  Proof.
+    apply set_eq. intros n. rewrite elem_of_outputs. fold outs. split.
+    - intros (i & Hi & Ho). apply (graph_lookup ls Hwf) in Hi as (l & Hl & Hin).
+      destruct l as [m|m|m g ops|q d]; simpl in Hin.
+      + apply elem_of_list_singleton in Hin as [= -> ->]. simpl in Ho. by apply bool_decide_eq_true in Ho.
+      + by apply elem_of_nil in Hin.
+      + destruct (gate_args g ops) as [[ty fi]|]; [|by apply elem_of_nil in Hin].
+        apply elem_of_list_singleton in Hin as [= -> ->]. simpl in Ho. by apply bool_decide_eq_true in Ho.
+      + rewrite !elem_of_cons in Hin. destruct Hin as [[= -> ->]|[[= _ ->]|[[= _ ->]|Hin]]]; try done; [|by apply elem_of_nil in Hin].
+        simpl in Ho. by apply bool_decide_eq_true in Ho.
+    - intros Hn. assert (Hd : n ∈ ls ≫= line_lhs).
+      { apply (wf_defined ls Hwf). apply elem_of_app. right. unfold outs in Hn. by apply elem_of_list_to_set in Hn. }
+      apply elem_of_list_bind in Hd as (l & Hnl & Hl).
+      destruct l as [m|m|m g ops|q d]; simpl in Hnl; try (by apply elem_of_nil in Hnl); apply elem_of_list_singleton in Hnl as ->.
+      + exists (mk_node Input (bool_decide (m ∈ outs)) ∅). split; [|simpl; by apply bool_decide_eq_true].
+        apply (graph_lookup ls Hwf). exists (BInput m). split; [done|]. simpl. by apply elem_of_list_singleton.
+      + pose proof (wf_line ls Hwf _ Hl) as Hok. simpl in Hok. apply andb_true_iff in Hok as [_ Hok].
+        destruct (doc_gate g) as [t|] eqn:Hdg; [|done].
+        destruct (gate_line_node ls Hwf m g ops t Hl Hdg) as (ty & fi & _ & _ & Hlook).
+        eexists. split; [exact Hlook|]. simpl. by apply bool_decide_eq_true.
+      + exists (mk_node Buf (bool_decide (q ∈ outs)) {[ pin (dff_inst q) rd_dff_out ]}). split; [|simpl; by apply bool_decide_eq_true].
+        apply (graph_lookup ls Hwf). exists (BDff q d). split; [done|]. simpl. set_solver.
+  Qed.
+End closed_form_outputs.
+
+(* ================= completeness: every solution of the text extends to a consistent valuation ================= *)
+(* pins take the value of the net on the other side of the flop *)
+Definition ext_val (ls : list bline) (v : val) : val := λ n,
+  match list_find (λ p, n = pin (dff_inst p.1) rd_dff_in ∨ n = pin (dff_inst p.1) rd_dff_out) (dff_lines ls) with
+  | Some (_, p) => if decide (n = pin (dff_inst p.1) rd_dff_in) then v p.2 else v p.1
+  | None => v n end.
+Lemma ext_val_ident ls v n : ident n = true → ext_val ls v n = v n.
+Proof.
+  intros Hid. unfold ext_val. destruct (list_find _ _) as [[k p]|] eqn:E; [|done].
+  apply list_find_Some in E as (_ & [-> | ->] & _); by rewrite ident_not_pin in Hid.
+Qed.
+Lemma node_fun_ext T v v' S : agrees S v v' → node_fun T v S = node_fun T v' S.
+Proof. intros H. destruct T; simpl; try done; by apply gate_val_ext. Qed.
+Lemma gate_val_single t v x : g_op t = xorb → g_unit t = false → gate_val t v {[ x ]} = xorb (g_inv t) (v x).
+Proof. intros Ho Hu. unfold gate_val. rewrite elements_singleton. simpl. rewrite Ho, Hu. by destruct (v x). Qed.
+Lemma odd_ops_sub i l : i ∈ odd_ops l → i ∈ l.
+Proof. unfold odd_ops. rewrite elem_of_list_filter, elem_of_fromkeys. tauto. Qed.
+
+Section closed_form_complete.
+  Context (ls : list bline) (Hwf : wfb ls = true).
+  Let outs : gset string := list_to_set (decl_outputs ls).
+
+  Lemma lhs_ident n : n ∈ ls ≫= line_lhs → ident n = true.
+  Proof.
+    rewrite elem_of_list_bind. intros (l & Hn & Hl). pose proof (wf_line ls Hwf _ Hl) as Hok.
+    destruct l as [m|m|m g ops|q d]; simpl in Hn, Hok; try (by apply elem_of_nil in Hn); apply elem_of_list_singleton in Hn as ->; try done.
+    by apply andb_true_iff in Hok as [? _].
+  Qed.
+  Lemma operand_ident n : n ∈ operands ls → ident n = true.
+  Proof. intros Hn. apply lhs_ident, (wf_defined ls Hwf). apply elem_of_app. by left. Qed.
+  Lemma dff_lines_iff q d : (q, d) ∈ dff_lines ls ↔ BDff q d ∈ ls.
+  Proof.
+    unfold dff_lines. rewrite elem_of_list_bind. split.
+    - intros (l & Hin & Hl). destruct l; try (by apply elem_of_nil in Hin). by apply elem_of_list_singleton in Hin as [= -> ->].
+    - intros Hl. exists (BDff q d). split; [by apply elem_of_list_singleton|done].
+  Qed.
+  Lemma ext_val_pin v q d : BDff q d ∈ ls →
+    ext_val ls v (pin (dff_inst q) rd_dff_in) = v d ∧ ext_val ls v (pin (dff_inst q) rd_dff_out) = v q.
+  Proof.
+    intros Hl. assert (Hfind : ∀ p0, p0 = rd_dff_in ∨ p0 = rd_dff_out →
+      ∃ k, list_find (λ p, pin (dff_inst q) p0 = pin (dff_inst p.1) rd_dff_in ∨ pin (dff_inst q) p0 = pin (dff_inst p.1) rd_dff_out) (dff_lines ls) = Some (k, (q, d))).
+    { intros p0 Hp0. destruct (list_find_elem_of (λ p, pin (dff_inst q) p0 = pin (dff_inst p.1) rd_dff_in ∨ pin (dff_inst q) p0 = pin (dff_inst p.1) rd_dff_out) (dff_lines ls) (q, d)) as [[k [q' d']] E].
+      - by apply dff_lines_iff.
+      - simpl. destruct Hp0 as [-> | ->]; auto.
+      - exists k. rewrite E. do 2 f_equal. pose proof E as E'. apply list_find_Some in E' as (Hk & HP & _). simpl in HP.
+        assert (q = q') as <-. { destruct HP as [HP|HP]; apply pin_dff_inj in HP as [? _]; try done; by destruct Hp0 as [-> | ->]. }
+        assert (Hl' : BDff q d' ∈ ls) by (apply dff_lines_iff; by eapply elem_of_list_lookup_2).
+        assert (BDff q d = BDff q d') as [= <-]; [|done]. eapply (lhs_same_line ls Hwf q); eauto; simpl; by left. }
+    unfold ext_val. split.
+    - destruct (Hfind rd_dff_in) as [k ->]; [by left|]. simpl. by rewrite decide_True.
+    - destruct (Hfind rd_dff_out) as [k ->]; [by right|]. simpl. rewrite decide_False; [done|].
+      intros E. by apply pin_dff_inj in E as [_ E].
+  Qed.
+
+  Theorem closed_complete v : sat_bench ls v →
+    consistent (bench_graph ls) (ext_val ls v) ∧ agrees (list_to_set (lhs_nets ls)) v (ext_val ls v).
+  Proof.
+    intros Hsat. split.
+    - intros n i Hi. apply (graph_lookup ls Hwf) in Hi as (l & Hl & Hin). fold outs in Hin.
+      pose proof (wf_line ls Hwf _ Hl) as Hok. destruct l as [m|m|m g ops|q d]; simpl in Hin, Hok.
+      + apply elem_of_list_singleton in Hin as [= -> ->]. done.
+      + by apply elem_of_nil in Hin.
+      + apply andb_true_iff in Hok as [Hidm Hok]. destruct (doc_gate g) as [t|] eqn:Hd; [|done].
+        destruct (gate_line_node ls Hwf m g ops t Hl Hd) as (ty & fi & Hargs & Hlen & _). rewrite Hargs in Hin.
+        apply elem_of_list_singleton in Hin as [= -> ->].
+        apply fun_node_ok; [by eapply gate_args_not_free|]. rewrite ext_val_ident by done.
+        rewrite (node_fun_ext _ (ext_val ls v) v).
+        * rewrite (gate_line_denotes g ops t ty fi v Hd Hargs Hlen). apply Hsat. unfold gate_lines. apply elem_of_list_bind.
+          exists (BGate m g ops). split; [|done]. rewrite Hd. by apply elem_of_list_singleton.
+        * intros x Hx. apply ext_val_ident, operand_ident. unfold operands. apply elem_of_list_bind. exists (BGate m g ops). split; [|done].
+          apply elem_of_list_to_set in Hx. rewrite gate_args_doc, Hd in Hargs. destruct ops as [|o1 ops]; [done|].
+          destruct (bool_decide (t ∈ [Xor; Xnor])); injection Hargs as _ <-; [by apply odd_ops_sub|done].
+      + destruct (ext_val_pin v q d Hl) as [HD HQ].
+        rewrite !elem_of_cons in Hin. destruct Hin as [[= -> ->]|[[= -> ->]|[[= -> ->]|Hin]]]; [| | |by apply elem_of_nil in Hin].
+        * apply fun_node_ok; [apply bool_decide_eq_false; set_solver|]. unfold node_fun. rewrite gate_val_single by done.
+          rewrite HQ, ext_val_ident by done. simpl. by destruct (v q).
+        * apply fun_node_ok; [apply bool_decide_eq_false; set_solver|]. unfold node_fun. rewrite gate_val_single by done.
+          rewrite HD. rewrite ext_val_ident; [simpl; by destruct (v d)|]. apply operand_ident. unfold operands. apply elem_of_list_bind.
+          exists (BDff q d). split; [by apply elem_of_list_singleton|done].
+        * done.
+    - intros n Hn. symmetry. apply ext_val_ident, lhs_ident. by apply elem_of_list_to_set in Hn.
+  Qed.
+End closed_form_complete.
+
+(* the whole reader statement, for the closed form *)
+Theorem bench_closed_denotes name ls : wfb ls = true →
+  let C := bench_closed name ls in
+  inputs (c_g C) = list_to_set (decl_inputs ls) ∧ outputs (c_g C) = list_to_set (decl_outputs ls)
+  ∧ (∀ v, consistent (c_g C) v → sat_bench ls v)
+  ∧ (∀ v, sat_bench ls v → ∃ v', consistent (c_g C) v' ∧ agrees (list_to_set (lhs_nets ls)) v v')
+  ∧ (∀ q d, (q, d) ∈ dff_lines ls → dff_between C q d).
+Proof.
+  intros Hwf C. split; [by apply closed_inputs|]. split; [by apply closed_outputs|]. split; [by apply closed_sound|]. split.
+  - intros v Hs. exists (ext_val ls v). by apply closed_complete.
+  - intros q d. by apply closed_dff.
+Qed.
